@@ -344,6 +344,9 @@ def rename(args: Namespace) -> str:
         raise FileNotFoundError  # pragma: nocover
     meta = pyben.load(target)
     name = meta["info"]["name"]
+    # the name comes from the metafile: it must stay a file name
+    if os.path.basename(name) != name or name in ("", ".", ".."):
+        raise ValueError(f"unsafe name in {target}: {name}")
     parent = os.path.dirname(target)
     new_path = os.path.join(parent, name + ".torrent")
     if os.path.lexists(new_path):
